@@ -34,6 +34,8 @@ structure Sc where
   msgFirst  : Std.HashMap (Nat × Nat × Bool) (Array Nat) := {}    -- (side, si, U) ↦ first TSN of each message, in first-transmission order
   fwdSeq    : Std.HashMap (Nat × Nat × Bool) Nat := {}            -- (side, si, U) ↦ largest SSN/MID named in a (I-)FORWARD-TSN stream entry
   fwdMax    : Array (Option Nat) := #[none, none]                 -- per side: largest new cumulative TSN it put in a (I-)FORWARD-TSN
+  eofs      : List (Nat × Nat) := []  -- (reader side, stream) that reported end-of-file
+  closes    : List (Nat × Nat) := []  -- (writer side, stream) closed by its writer
   shutdownOk : List Nat := []        -- sides whose Shutdown() returned nil
   lateHashes : List Nat := []        -- payload hashes of writes attempted after shutdown began
   deriving Inhabited
@@ -179,6 +181,17 @@ def checkFin (sc : Sc) (fin : List (String × String)) (leakNames : String) : Li
     let dcepR := rs.filter (·.ppi == 50)
     if sc.ended && dcepW != dcepR then
       out := out ++ [s!"[C06] stream {st.id}: DCEP messages not all delivered in order ({dcepR.length} of {dcepW.length})"]
+  -- stream close (C14): every message written before Close is read, then end-of-file
+  if sc.mode == "reset" then
+    for st in sc.streams do
+      if sc.closes.contains (st.dir, st.id) && st.relType == 0 then
+        let ws := msgsOf sc st.dir st.id
+        let rs := readsOf sc (1 - st.dir) st.id
+        let ok := if st.unordered then isSubMultiset rs ws && rs.length == ws.length else rs == ws
+        if !ok then
+          out := out ++ [s!"[C14] stream {st.id % 1000} (incarnation {st.id / 1000}) closed by its writer: the reader got {rs.length} of {ws.length} messages ({describeDiff rs ws})"]
+        else if sc.ended && ws.length > 0 && !sc.eofs.contains (1 - st.dir, st.id) then
+          out := out ++ [s!"[C14] stream {st.id % 1000} (incarnation {st.id / 1000}): the reader never saw end-of-file after the writer closed"]
   -- graceful shutdown (C08): everything the caller wrote before the call was delivered, in order
   if sc.mode == "shutdown" then
     for st in sc.streams do
